@@ -464,3 +464,38 @@ package tengo
 //@   ensures from_time: is(o, *Time) ==> ok && v == o.(*Time).Value
 //@   ensures from_int: is(o, *Int) ==> ok
 //@   ensures none: !is(o, *Time) && !is(o, *Int) ==> !ok
+
+// ---------------------------------------------------------------------------
+// freeze (C09): the result is immutable, and so is every element one level
+// down; deeper levels follow by induction because each element is itself the
+// result of freezeObject (or an unchanged, already frozen element).
+// ---------------------------------------------------------------------------
+
+//@ func freezeObject
+//@   props C09
+//@   requires memo != nil
+//@   requires memo_frozen: forall k Object :: haskey(memo, k) ==> !is(memo[k], *Array) && !is(memo[k], *Map)
+//@   assigns memo[*]
+//@   ensures kind: !is(result, *Array) && !is(result, *Map)
+//@   ensures scalar: !is(o, *Array) && !is(o, *Map) && !is(o, *ImmutableArray) && !is(o, *ImmutableMap) ==> result == o
+//@   ensures memo_frozen: forall k Object :: haskey(memo, k) ==> !is(memo[k], *Array) && !is(memo[k], *Map)
+//@   ensures elems_fresh_array: is(result, *ImmutableArray) && fresh(result)
+//@              ==> forall i in 0..len(result.(*ImmutableArray).Value) :: !is(result.(*ImmutableArray).Value[i], *Array) && !is(result.(*ImmutableArray).Value[i], *Map)
+//@   ensures elems_same_array: is(o, *ImmutableArray) && result == o
+//@              ==> forall i in 0..len(o.(*ImmutableArray).Value) :: !is(o.(*ImmutableArray).Value[i], *Array) && !is(o.(*ImmutableArray).Value[i], *Map)
+//@   let av = o.(*Array).Value
+//@   loop 0 invariant idx: 0 <= rangeindex+1 && rangeindex+1 <= len(av)
+//@   loop 0 invariant memo: forall k Object :: haskey(memo, k) ==> !is(memo[k], *Array) && !is(memo[k], *Map)
+//@   loop 0 invariant shape: fresh(frozen) && fresh(frozen.Value) && len(frozen.Value) == len(av)
+//@   loop 0 invariant done: forall j in 0..rangeindex+1 :: !is(frozen.Value[j], *Array) && !is(frozen.Value[j], *Map)
+//@   loop 0 invariant rest: forall j in rangeindex+1..len(frozen.Value) :: frozen.Value[j] == nil
+//@   loop 1 invariant shape: fresh(frozen) && frozen.Value != nil && fresh(frozen.Value)
+//@   loop 1 invariant memo: forall k Object :: haskey(memo, k) ==> !is(memo[k], *Array) && !is(memo[k], *Map)
+//@   let iv = o.(*ImmutableArray).Value
+//@   loop 2 invariant idx: 0 <= rangeindex+1 && rangeindex+1 <= len(iv)
+//@   loop 2 invariant memo: forall k Object :: haskey(memo, k) ==> !is(memo[k], *Array) && !is(memo[k], *Map)
+//@   loop 2 invariant shape: fresh(newElems) && len(newElems) == len(iv)
+//@   loop 2 invariant done: forall j in 0..rangeindex+1 :: !is(newElems[j], *Array) && !is(newElems[j], *Map)
+//@   loop 2 invariant same: !changed ==> forall j in 0..rangeindex+1 :: newElems[j] == iv[j]
+//@   loop 3 invariant shape: newMap != nil && fresh(newMap)
+//@   loop 3 invariant memo: forall k Object :: haskey(memo, k) ==> !is(memo[k], *Array) && !is(memo[k], *Map)
